@@ -68,6 +68,9 @@ async fn run_command(
     cmd.args(program_args);
     cmd.stdout(std::process::Stdio::piped());
     cmd.stderr(std::process::Stdio::piped());
+    // When the runner's timeout drops this future the command must die with it: otherwise it
+    // keeps mutating the workspace after the workspace lock has been released.
+    cmd.kill_on_drop(true);
 
     if let Some(cwd) = args.cwd.as_deref() {
         match resolve_path(&config.workspace_root, cwd) {
